@@ -53,6 +53,15 @@ SecRule FILES_NAMES "@unconditionalMatch" "id:13,phase:2,pass,nolog"
 SecRule REQUEST_URI "@unconditionalMatch" "id:14,phase:2,pass,nolog"
 SecRule XML:/* "@unconditionalMatch" "id:15,phase:2,pass,nolog"
 SecRule XML://@* "@unconditionalMatch" "id:16,phase:2,pass,nolog"
+SecRule REQUEST_FILENAME "@unconditionalMatch" "id:31,phase:2,pass,nolog"
+SecRule REQUEST_BASENAME "@unconditionalMatch" "id:32,phase:2,pass,nolog"
+SecRule ARGS_COMBINED_SIZE "@unconditionalMatch" "id:33,phase:2,pass,nolog"
+SecRule REQUEST_LINE "@unconditionalMatch" "id:34,phase:2,pass,nolog"
+SecRule REQUEST_URI_RAW "@unconditionalMatch" "id:35,phase:2,pass,nolog"
+SecRule REQUEST_METHOD "@unconditionalMatch" "id:36,phase:2,pass,nolog"
+SecRule REQUEST_HEADERS_NAMES "@unconditionalMatch" "id:37,phase:2,pass,nolog"
+SecRule REQUEST_BODY_LENGTH "@unconditionalMatch" "id:38,phase:2,pass,nolog"
+SecRule &ARGS "@unconditionalMatch" "id:39,phase:2,pass,nolog"
 SecRule REQBODY_ERROR|MULTIPART_STRICT_ERROR|URLENCODED_ERROR|INBOUND_DATA_ERROR "!@eq 0" "id:20,phase:2,pass,nolog"
 `
 
@@ -157,7 +166,7 @@ func c03RunChunks(w coraza.WAF, uri string, headers [][2]string, ct string, body
 
 // C03: every piece of request data is visible to rules, decoded once, never dropped.
 func C03(run *vf.Run) {
-	run.Rule = "Encode.tla: an independent encoder of (name, value) byte-string pairs into a query string / urlencoded body / Cookie header, its reference decoder (TLC checks Dec(Enc(x)) = x on every list) and the bag of (key, value) each documented variable must then hold. Encode_MC enumerates every list of up to MaxPairs pairs with names {a, A, 'a b', 'a%25'} and every value over {a % 2 5 + & = space 0xFF} up to MaxValLen (repeated names, empty values, reserved characters, text that looks like an escape); each list is sent as a query string, as a urlencoded body, as a Cookie header, as request headers, as a JSON object and as a multipart form (the last two serialised with the Go standard library) and read back by rules of the form SecRule <VARIABLE> \"@unconditionalMatch\" through MatchedDatas(): ARGS_GET, ARGS_POST, ARGS, ARGS_NAMES, *_NAMES, REQUEST_COOKIES, REQUEST_HEADERS, QUERY_STRING, REQUEST_BODY, FILES; with SecArgumentsLimit below the number of arguments and with unparsable bodies an error variable or an interruption must say so. Non-trivial = list with at least one pair"
+	run.Rule = "Encode.tla: an independent encoder of (name, value) byte-string pairs into a query string / urlencoded body / Cookie header, its reference decoder (TLC checks Dec(Enc(x)) = x on every list) and the bag of (key, value) each documented variable must then hold. Encode_MC enumerates every list of up to MaxPairs pairs with names {a, A, 'a b', 'a%25'} and every value over {a % 2 5 + & = space 0xFF} up to MaxValLen (repeated names, empty values, reserved characters, text that looks like an escape); each list is sent as a query string, as a urlencoded body, as a Cookie header, as request headers, as a JSON object and as a multipart form (the last two serialised with the Go standard library) and read back by rules of the form SecRule <VARIABLE> \"@unconditionalMatch\" through MatchedDatas(): ARGS_GET, ARGS_POST, ARGS, ARGS_NAMES, *_NAMES, REQUEST_COOKIES, REQUEST_HEADERS, QUERY_STRING, REQUEST_BODY, FILES and the derived variables REQUEST_FILENAME, REQUEST_BASENAME, REQUEST_LINE, REQUEST_URI_RAW, ARGS_COMBINED_SIZE, &ARGS; with SecArgumentsLimit below the number of arguments and with unparsable bodies an error variable or an interruption must say so. Non-trivial = list with at least one pair"
 	run.Exhaustive = true
 	run.Assume("JSON, multipart and XML documents are serialised by encoding/json, mime/multipart and hand-written literals; tokenisation inside gjson / encoding/xml / mime/multipart is trusted")
 	run.Assume("cookies: only pairs whose name is a token and whose value has no space are sent (the cookie grammar gives others no meaning)")
@@ -301,6 +310,22 @@ func C03(run *vf.Run) {
 				}
 				check(c, "query", got, 2, "ARGS_POST", nil)
 				check(c, "query", got, 14, "REQUEST_URI", [][2]string{{"", "/p?" + string(c.Query)}})
+			}
+			// derived variables: the URI is cut at the first question mark, the path at its last slash
+			got, _, p = c03Run(w, "/dir.d/p.ext?"+string(c.Query), nil, "", nil)
+			if p == "" {
+				size := 0
+				for _, kv1 := range kv {
+					size += len(kv1[0]) + len(kv1[1])
+				}
+				check(c, "uri", got, 31, "REQUEST_FILENAME", [][2]string{{"", "/dir.d/p.ext"}})
+				check(c, "uri", got, 32, "REQUEST_BASENAME", [][2]string{{"", "p.ext"}})
+				check(c, "uri", got, 33, "ARGS_COMBINED_SIZE", [][2]string{{"", strconv.Itoa(size)}})
+				check(c, "uri", got, 34, "REQUEST_LINE", [][2]string{{"", "POST /dir.d/p.ext?" + string(c.Query) + " HTTP/1.1"}})
+				check(c, "uri", got, 35, "REQUEST_URI_RAW", [][2]string{{"", "/dir.d/p.ext?" + string(c.Query)}})
+				check(c, "uri", got, 36, "REQUEST_METHOD", [][2]string{{"", "POST"}})
+				check(c, "uri", got, 37, "REQUEST_HEADERS_NAMES", [][2]string{{"Host", "Host"}})
+				check(c, "uri", got, 39, "&ARGS", [][2]string{{"", strconv.Itoa(len(kv))}})
 			}
 			// (b) urlencoded body
 			if len(c.Query) > 0 {
